@@ -229,6 +229,16 @@ fn run_inner<F: Flavour>(sc: &HistSc, verdict: Verdict, stats: &mut Stats, solo:
             }
         }
         stats.mark("abstract_states", model.shape_hash());
+        if let Op::Connect { u, v, .. } = op {
+            let l = model.out(*u).len().max(model.inn(*v).len());
+            if l >= 33 {
+                stats.inc("probe_list_len_ge_33");
+            } else if l >= 17 {
+                stats.inc("probe_list_len_ge_17");
+            } else if l >= 9 {
+                stats.inc("probe_list_len_ge_9");
+            }
+        }
     }
     None
 }
@@ -273,9 +283,28 @@ impl Engine for Hist {
         if rng.chance(1, 4) {
             cfg.provs = vec![crate::model::Prov::Own];
         }
-        let mut ops = Vec::with_capacity(nops);
+        if !small && rng.chance(1, 4) {
+            // long lists: most edge operations hit one pair (list lengths beyond small Vec capacities)
+            cfg.hub = Some((rng.below(n), rng.below(n)));
+            cfg.w = [55, 5, 22, 1, 10, 5, 2];
+        }
+        let mut ops: Vec<Op> = Vec::with_capacity(nops);
         for _ in 0..nops {
-            let op = gen::gen_op(rng, &m, &mut next_edge, &cfg);
+            // now and then the previous call is simply repeated
+            let op = match ops.last() {
+                Some(prev) if rng.chance(1, 12) => match prev.clone() {
+                    Op::Connect { u, v, h, .. } => {
+                        next_edge += 1;
+                        Op::Connect { u, v, e: next_edge, h }
+                    }
+                    Op::TryConnect { u, v, h, .. } => {
+                        next_edge += 1;
+                        Op::TryConnect { u, v, e: next_edge, h }
+                    }
+                    o => o,
+                },
+                _ => gen::gen_op(rng, &m, &mut next_edge, &cfg),
+            };
             m.step(&op);
             ops.push(op);
         }
